@@ -36,8 +36,10 @@ CHECKS = {
     "C16": dict(
         text="Theorems (Coq, all four node kinds, update and adjust, every node value, every grid content): the model of the eight functions satisfies the whole property "
              "(Ok => every owned coordinate = new / old+delta, others untouched; Err => node unchanged; inadmissible => Err; admissible => Ok). The same executable predicate "
-             "(adj_check) is the oracle applied to the implementation's output; correspondence by exhaustive sign patterns {-,0,+}^k x {-,0,+}^k.",
-        note=LEVEL_NOTE_COMMON + "Axioms: none. Integers modelled as Z (values whose sums fit); grid reads go through the C17 grid model with the exact PointIndex the code builds.",
+             "(adj_check) is the oracle applied to the implementation's output; correspondence by exhaustive sign patterns {-,0,+}^k x {-,0,+}^k. "
+             "AT THE EDGE OF THE MACHINE TYPE (Adjustable/Overflow.v): the release build's wrapping addition is modelled (adjust_w), proved to be the unbounded model whenever all sums old+delta fit i64 "
+             "(so the property holds there), compared with the implementation on values around +-2^63 and +-2^62, and the property is REFUTED outside the range (known finding D11: -5 adjusted by -(2^63-1) succeeds).",
+        note=LEVEL_NOTE_COMMON + "Axioms: none. Integers modelled as Z for the property theorems (values whose sums fit), as wrapped i64 for the release model at the edge; grid reads go through the C17 grid model with the exact PointIndex the code builds.",
         technique="Coq proof (case analysis over straight-line model, checker soundness by construction) + exhaustive differential correspondence + proved checker as oracle",
         design="§7 C16"),
     "C08": dict(
